@@ -332,9 +332,11 @@ pub fn pools(r: &mut Sm, nkeys: usize) -> Pools {
         keys6.push((a, 2000 + (i / 4) as u16));
     }
     let mut pids = Vec::new();
-    for i in 0..4u8 {
+    // peer ids of three different clients, two ids of the same client (C20: per-client statistics)
+    for (i, prefix) in [&b"-TR3000-"[..], &b"-qB4520-"[..], &b"-UT355W-"[..], &b"-TR3000-"[..]].iter().enumerate() {
         let mut p = [0x2du8; 20];
-        p[19] = i;
+        p[..8].copy_from_slice(prefix);
+        p[19] = i as u8;
         pids.push(p);
     }
     Pools { hashes, keys4, keys6, pids }
